@@ -21,7 +21,7 @@ ASSUMPTIONS = [
     "struct.unpack as seen by pickletools is the pure-Python stand-in validated against C struct on boundary values at start-up",
     "text-decoded arguments (utf-8 / latin-1 / repr-quoted / decimal / float text) are drawn from listed samples, not symbolic; float8 payloads are samples",
     "an opcode fickling does not support must make load() raise NotImplementedError (refusal); any other outcome must round-trip",
-    "non-seekable sources: only 'read once, in one piece' is asserted (buffering is the mechanism), not what remains readable afterwards",
+    "non-seekable sources: only the byte-exact round trip is asserted, not how the source is read or what remains readable afterwards",
 ]
 
 OPS = {o.name: o for o in pickletools.opcodes}
@@ -105,10 +105,8 @@ def _roundtrip(kind, prefix, head, tail):
             return False
         if stream.data != prefix + head + tail:
             return False
-    elif kind == 2:
-        reads = [e for e in stream.log if e[0] in ("read", "readline")]
-        if len(reads) != 1 or reads[0] not in (("read", -1), ("read", None)):
-            return False
+    # non-seekable sources: nothing beyond dumps() == head is demanded (how the source is buffered is the
+    # implementation's business; the property makes no claim about what remains readable there)
     return True
 
 
